@@ -53,11 +53,14 @@ Parts(p) == IF cfg.store = "redis" THEN 1 ELSE p
 Init == /\ jar = [s \in Slots |-> None] /\ last = 0 /\ n = 0 /\ hist = <<>>
         /\ cfg \in [store : Stores, nameLen : NameLens]
 
-Save(p) == /\ Len(hist) < MaxOps
+\* ct = "rep": the session's fields are long runs and repetitions (many kilobytes that compress into ONE cookie) instead of
+\* incompressible tokens - for the jar it is a one-part save like any other
+Save(p, ct) == /\ Len(hist) < MaxOps
+           /\ (ct = "rep" => p = 1)
            /\ n' = n + 1
            /\ jar' = AfterSave(jar, Parts(p), n + 1)
            /\ last' = n + 1
-           /\ hist' = Append(hist, [a |-> "save", args |-> [parts |-> p, id |-> n + 1],
+           /\ hist' = Append(hist, [a |-> "save", args |-> [parts |-> p, id |-> n + 1, content |-> ct],
                                     req  |-> [loaded |-> n + 1, intact |-> TRUE, maxCookie |-> [le |-> 4096]],
                                     impl |-> [loaded |-> Load(jar')]])
            /\ UNCHANGED cfg
@@ -68,7 +71,7 @@ Clear == /\ Len(hist) < MaxOps
          /\ hist' = Append(hist, [a |-> "clear", args |-> [parts |-> 0, id |-> 0],
                                   req |-> [loaded |-> 0], impl |-> [loaded |-> Load(jar')]])
          /\ UNCHANGED <<n, cfg>>
-Next == (\E p \in 1..MaxParts : Save(p)) \/ Clear
+Next == (\E p \in 1..MaxParts, ct \in {"rand", "rep"} : Save(p, ct)) \/ Clear
 
 \* ---- properties ----------------------------------------------------------------------------
 C10_RoundTrip == Load(jar) = last
